@@ -113,7 +113,8 @@ fn canonical(prop: &str, thorough: bool, seed: u64, rep: &mut Report) {
     let keys = ["", "a", "b", "aa", "\u{e000}", "\u{10000}", "\u{ffff}", "\u{1F600}", "\u{e9}", "A", "\n", "\u{7f}/", "\u{1f}\"\\", "\u{2028}",
         "urn:example:item:b", "urn:example:item:a", "urn:example:item:", "0123456789abcdef", "0123456789abcdefg", "0123456789abcde\u{1F600}b", "0123456789abcde\u{1F600}a",
         "0123456789abcdef0123456789abcdef-z", "0123456789abcdef0123456789abcdef-y", "0123456789abcdef0123456789abcde\u{e000}", "0123456789abcdef0123456789abcde\u{10000}"];
-    let num_ident = |s: &str| -> String { NUMBERS.iter().find(|(a, _)| *a == s).map(|(_, b)| b.to_string()).unwrap_or(s.to_string()) };
+    // (the reference rendering of every number: nearest double, ECMAScript text; the RFC table is a self-check of it)
+    let num_ident = |s: &str| -> String { ref_number(s) };
     rep.rule = "objects over keys that separate UTF-16 order from code-point order (U+E000, U+FFFF vs non-BMP), nested two levels, all number spellings of the RFC 8785 table; compared with: sort by UTF-16 units at every level + reference compact serializer; non-trivial = at least two members".into();
     rep.bounds = vec![("keys".into(), keys.len().to_string()), ("numbers".into(), NUMBERS.len().to_string())];
     if prop == "C09" {
@@ -178,7 +179,7 @@ fn canonical(prop: &str, thorough: bool, seed: u64, rep: &mut Report) {
         let mut pick = |rng: &mut Rng, depth: usize| -> RefValue {
             fn go(rng: &mut Rng, depth: usize, keys: &[&str]) -> RefValue {
                 match rng.below(if depth == 0 { 4 } else { 6 }) {
-                    0 => RefValue::Num(NUMBERS[rng.below(NUMBERS.len())].0.to_string()),
+                    0 => RefValue::Num(if rng.below(4) == 0 { LONG_NUMBERS[rng.below(LONG_NUMBERS.len())].to_string() } else { NUMBERS[rng.below(NUMBERS.len())].0.to_string() }),
                     1 => RefValue::Str(keys[rng.below(keys.len())].to_string()),
                     2 => RefValue::Null, 3 => RefValue::Bool(rng.below(2) == 0),
                     4 => RefValue::Arr((0..rng.below(3)).map(|_| go(rng, depth - 1, keys)).collect()),
@@ -211,6 +212,8 @@ fn canonical(prop: &str, thorough: bool, seed: u64, rep: &mut Report) {
             // nothing else changes: structure, strings, booleans, nulls; and still queryable by key
             let want_shape = ref_canon(&v, &|s: &str| s.to_string());
             let got_shape = by_key(&strip_numbers(&from_real(&once))); if got_shape != by_key(&strip_numbers(&want_shape)) { rep.violation("canonicalization preserves structure/strings/literals", "shape", format!("{:?}", v), format!("{:?}", from_real(&once))); }
+            // every number keeps its double value (the nearest double of the old spelling is the nearest double of the new one)
+            if by_key(&numbers_as_doubles(&from_real(&once))) != by_key(&numbers_as_doubles(&want_shape)) { rep.violation("every number keeps its double value", "double-value", format!("{:?}", v), format!("{:?}", from_real(&once))); }
             if let Value::Object(o) = &once { for (i, e) in o.entries().iter().enumerate() { if o.index_of(e.key.as_str()) != Some(i) || o.get(e.key.as_str()).count() != 1 { rep.violation("object queryable by key after canonicalization", "queryable", format!("{:?}", v), format!("key {:?}", e.key.as_str())); } } }
         }
     }
@@ -242,20 +245,46 @@ fn by_key(v: &RefValue) -> RefValue { match v { RefValue::Arr(a) => RefValue::Ar
 
 fn strip_numbers(v: &RefValue) -> RefValue { match v { RefValue::Num(_) => RefValue::Num("#".into()), RefValue::Arr(a) => RefValue::Arr(a.iter().map(strip_numbers).collect()), RefValue::Obj(es) => RefValue::Obj(es.iter().map(|(k, x)| (k.clone(), strip_numbers(x))).collect()), o => o.clone() } }
 
-/// the same value with every number replaced by another spelling of the same double (where the
-/// table has one)
+/// every number replaced by the bits of the double nearest to it (C10: "each number keeps its double value")
+fn numbers_as_doubles(v: &RefValue) -> RefValue { match v { RefValue::Num(s) => RefValue::Num(format!("{:016x}", { let f = s.parse::<f64>().unwrap(); if f == 0.0 { 0u64 } else { f.to_bits() } })), RefValue::Arr(a) => RefValue::Arr(a.iter().map(numbers_as_doubles).collect()), RefValue::Obj(es) => RefValue::Obj(es.iter().map(|(k, x)| (k.clone(), numbers_as_doubles(x))).collect()), o => o.clone() } }
+
+/// an exactly equal spelling of a JSON number: the decimal point moved with the exponent adjusted,
+/// zeros appended to the fraction, `E` / `e` / `+` varied (pure text manipulation: value-preserving
+/// whatever the number of digits)
+fn respell_number(n: &str, rng: &mut Rng) -> String {
+    let (neg, body) = match n.strip_prefix('-') { Some(b) => (true, b), None => (false, n) };
+    let (mant, exp) = match body.find(|c| c == 'e' || c == 'E') { Some(i) => (&body[..i], body[i + 1..].parse::<i64>().unwrap()), None => (body, 0) };
+    let (ip, fp) = match mant.find('.') { Some(i) => (&mant[..i], &mant[i + 1..]), None => (mant, "") };
+    let mut digits: String = format!("{}{}", ip, fp);
+    let mut point = ip.len() as i64; // position of the decimal point inside `digits`
+    let shift = rng.below(7) as i64 - 3; // move the point `shift` places to the right
+    let mut new_point = point + shift;
+    if new_point < 1 { let pad = (1 - new_point) as usize; digits = format!("{}{}", "0".repeat(pad), digits); new_point += pad as i64; }
+    if new_point > digits.len() as i64 { let pad = (new_point - digits.len() as i64) as usize; digits.push_str(&"0".repeat(pad)); }
+    point = new_point;
+    let mut ipart: String = digits[..point as usize].trim_start_matches('0').to_string(); if ipart.is_empty() { ipart.push('0'); }
+    let mut fpart: String = digits[point as usize..].to_string();
+    fpart.push_str(&"0".repeat(rng.below(3)));
+    let new_exp = exp - shift;
+    let mut out = String::new(); if neg { out.push('-'); }
+    out.push_str(&ipart); if !fpart.is_empty() { out.push('.'); out.push_str(&fpart); }
+    if new_exp != 0 || rng.below(3) == 0 { out.push(if rng.below(2) == 0 { 'e' } else { 'E' }); if new_exp >= 0 && rng.below(2) == 0 { out.push('+'); } out.push_str(&new_exp.to_string()); }
+    out
+}
+
 fn respell(v: &RefValue, rng: &mut Rng) -> RefValue {
     match v {
-        RefValue::Num(n) => {
-            let canon = NUMBERS.iter().find(|(a, _)| a == n).map(|(_, b)| *b);
-            let alts: Vec<&str> = match canon { Some(c) => NUMBERS.iter().filter(|(a, b)| *b == c && a != n).map(|(a, _)| *a).collect(), None => vec![] };
-            if alts.is_empty() { v.clone() } else { RefValue::Num(alts[rng.below(alts.len())].to_string()) }
-        }
+        RefValue::Num(n) => RefValue::Num(respell_number(n, rng)),
         RefValue::Arr(a) => RefValue::Arr(a.iter().map(|x| respell(x, rng)).collect()),
         RefValue::Obj(es) => RefValue::Obj(es.iter().map(|(k, x)| (k.clone(), respell(x, rng))).collect()),
         o => o.clone(),
     }
 }
+
+/// numbers whose digits exceed what a double holds (the nearest double must be found exactly)
+const LONG_NUMBERS: [&str; 10] = ["62366.589399033819066834200497105", "2301321284722629935389", "63868144857173796.005437586005", "9007199254740993.0000000000000000001",
+    "0.1000000000000000055511151231257827021181583404541015625", "13900427.572972546332283705926", "70.299427235732243027308e-4", "-532091418514.8731994837012225736992054048",
+    "48705116.30047042667928001927982679829e1", "1.00000000000000011102230246251565404236316680908203125"];
 
 fn shuffle(v: &RefValue, rng: &mut Rng) -> RefValue {
     match v {
